@@ -222,7 +222,9 @@ func (s *JavaIdentifierListener) EnterExpression(ctx *parser.ExpressionContext) 
 		statementCtx := ctx.GetParent().(*parser.StatementContext)
 		firstChild := statementCtx.GetChild(0).(antlr.ParseTree).GetText()
 		if strings.ToLower(firstChild) == "return" {
-			currentMethod.IsReturnNull = strings.Contains(ctx.GetText(), "null")
+			if strings.Contains(ctx.GetText(), "null") {
+				currentMethod.IsReturnNull = true
+			}
 		}
 	}
 }
